@@ -1234,6 +1234,12 @@ func (a *alertState) addEvent(t time.Time, level alert.Level) {
 	// Check for changes
 	a.changed = a.history[a.idx] != level
 
+	// The alert is leaving the OK state: its duration is measured from here,
+	// even when this event is suppressed (e.g. flapping) and never triggered.
+	if a.history[a.idx] == alert.OK && level != alert.OK {
+		a.firstTriggered = t
+	}
+
 	// Add event to history
 	a.idx = (a.idx + 1) % len(a.history)
 	a.history[a.idx] = level
